@@ -100,7 +100,13 @@ def gen_dist(rng, r_km):
     if style < 0.85:
         m = r_km * 1000
         return [int(m) if float(m).is_integer() else m, rng.choice(["m", "meters"])]
-    return [r_km, rng.choice(["kilometers", "km!"])]
+    if style < 0.93:
+        return [r_km, rng.choice(["kilometers", "km!"])]
+    # the other units the table of to_kilometers knows (the radius itself is then whatever the rounded number of miles /
+    # feet / yards / centimetres means: the specification is computed from the spelled-out value)
+    u = rng.choice(["miles", "mi", "ft", "yards", "cm"])
+    v = float(Fraction(str(r_km)) / UNITS_KM[u])
+    return [float(f"{v:.6g}"), u]
 
 
 def gen_ivl(rng, s):
@@ -432,7 +438,9 @@ def gen_zero(rng, k):
              {"P": P, "S": S, "dist": gen_dist(rng, 5), "ivl": zero_i, **b, **gen_tuning(rng)},
              {"P": S, "S": P, "dist": zero_d, "ivl": gen_ivl(rng, 2), **b, **gen_tuning(rng)},
              {"P": P, "S": S, "dist": zero_d, "ivl": zero_i, **b, **gen_tuning(rng)},
-             {"P": P, "S": S, "dist": gen_dist(rng, 5), "ivl": gen_ivl(rng, 10), **b, **gen_tuning(rng)}]
+             {"P": P, "S": S, "dist": gen_dist(rng, 5), "ivl": gen_ivl(rng, 10), **b, **gen_tuning(rng)},
+             {"P": P, "S": S, "dist": [[3.1, "miles"], [3.1, "mi"], [16400.0, "ft"], [5468.0, "yards"]][k % 4], "ivl": gen_ivl(rng, 10), **b,
+              **gen_tuning(rng)}]
     return calls
 
 
